@@ -12,6 +12,8 @@ for f in sorted(glob.glob("/verif/seeded/*/meta.json")):
     if sel not in m["id"]:
         continue
     d = os.path.dirname(f)
+    if not m["caught_by_checks"]:
+        res.append((m["id"], "known-miss", "")); print("%-10s known miss (registered as not caught)" % m["id"], flush=True); continue
     if subprocess.run(["git", "-C", REPO, "diff", "--quiet", "--", "EoN"]).returncode != 0:
         print(REPO + " not clean"); sys.exit(3)
     if subprocess.run(["git", "-C", REPO, "apply", os.path.join(d, "patch.diff")], capture_output=True).returncode != 0:
@@ -28,6 +30,6 @@ for f in sorted(glob.glob("/verif/seeded/*/meta.json")):
         subprocess.run(["git", "-C", REPO, "checkout", "--", "EoN"])
     res.append((m["id"], "caught" if caught else "MISSED", ",".join(caught)))
     print("%-10s %-8s by %-12s (%.0fs)" % (m["id"], res[-1][1], res[-1][2], time.time() - t0), flush=True)
-missed = [r for r in res if r[1] != "caught"]
+missed = [r for r in res if r[1] not in ("caught", "known-miss")]
 print("%d seeded changes, %d caught, %d not: %s" % (len(res), len(res) - len(missed), len(missed), [r[0] for r in missed]))
 sys.exit(1 if missed else 0)
